@@ -222,6 +222,15 @@ def _check_case(case, res, count=True):
                         t.undo_compromise(n) if n in t.reached_attack_steps else None
                 if count and any([a.id for a in n.compromised_by] != sorted(a.id for a in n.compromised_by) for n in g.nodes):
                     res.count('class:step-compromised-by-attackers-out-of-registration-order')
+            if case.get('odd_status') is not None and g.nodes:
+                # a status the API user put on a step that is not a defense: it is sent like any other
+                import random
+                orng = random.Random(case['odd_status'])
+                for n in orng.sample(list(g.nodes), min(3, len(g.nodes))):
+                    if n.type != 'defense':
+                        n.defense_status = orng.choice([0.5, 1.0, 0.0])
+                        if count:
+                            res.count('class:defense-status-on-a-step-that-is-no-defense')
             store2 = fakeneo.Store()
             neo.Graph = fakeneo.make_graph_class(store2)
             names = [n.full_name for n in g.nodes]
@@ -257,6 +266,7 @@ def run(rng, res, tier, shard, nshards):
         case['with_graph'] = rng.random() < 0.35
         case['ag_attackers'] = rng.randrange(10 ** 9) if rng.random() < 0.5 else None
         case['remove_node'] = rng.randrange(1000) if rng.random() < 0.5 else None
+        case['odd_status'] = rng.randrange(10 ** 9) if rng.random() < 0.4 else None
         f = check_case(case, res)
         am = case['amodel']
         res.case(digest([case['spec'], am]) if len(am['assets']) >= 2 and am['links'] else None)
